@@ -238,6 +238,14 @@ def sym_mul(a, b):
         # parity, zero and sign facts of an integer product
         G.SIDE.append(z3.Extract(0, 0, p) == (z3.Extract(0, 0, at) & z3.Extract(0, 0, bt)))
         G.SIDE.append((p == bvv(0)) == z3.Or(at == bvv(0), bt == bvv(0)))
+        if alo >= 0 and blo >= 0:
+            # McCormick-style bounds with power-of-two multipliers (shifts only: cheap to bit-blast):
+            # a >= 2^i  =>  a*b >= 2^i * b ;  a < 2^j  =>  a*b < 2^j * b (b > 0)
+            for (xlo, xhi), t in (((alo, ahi), bt), ((blo, bhi), at)):
+                if xlo > 0:
+                    G.SIDE.append(z3.UGE(p, t << (xlo.bit_length() - 1)))
+                if fits(0, (1 << xhi.bit_length()) * max(ahi, bhi)):
+                    G.SIDE.append(z3.ULE(p, t << xhi.bit_length()))
         if alo < 0 or blo < 0:
             G.SIDE.append(z3.Implies(z3.And(at != bvv(0), bt != bvv(0)), (p < bvv(0)) == z3.Xor(at < bvv(0), bt < bvv(0))))
         G.mul_cache[key] = (p, at, bt)   # keep operand terms alive so ids stay unique
